@@ -198,11 +198,24 @@ def encode_interleaved(rng, stats, nrounds):
     out = bytearray()
     expect = []
     overlapped = False
+    # a small pool of chunk streams used throughout the trace (so that later messages on a stream compress their
+    # headers against earlier ones), one time in three a set that a mis-computed multi-byte id would confuse
+    pool = []
+    if rng.chance(1, 3):
+        base = rng.choice([rng.range(320, 65599), rng.range(64 + 192, 64 + 255) + 256 * rng.range(0, 254), rng.range(64, 319)])
+        near = [base + d for d in (-256, 256, -64, 64, -1, 1, -512, 255, -255) if 2 <= base + d <= 65599]
+        pool = [base] + near[:rng.range(1, 3)]
+        bump(stats, "aliasing_csid_sets")
+    while len(pool) < 4:
+        c = pick_csid(rng)
+        if c not in pool:
+            pool.append(c)
+    nrounds = nrounds + rng.range(0, 3)
     for _ in range(nrounds):
         k = rng.range(1, 3)
         csids = []
         while len(csids) < k:
-            c = pick_csid(rng)
+            c = rng.choice(pool[:3]) if rng.chance(3, 4) else rng.choice(pool)
             if c not in csids:
                 csids.append(c)
         msgs = gen_messages(rng, k, max_len=600)
